@@ -35,6 +35,15 @@ CHECKS.update({
  "C07": dict(engine="symtorch", category="model_checking", design_ref="DESIGN.md §4 C07",
    text="The real transformer_residual_scaling_rule executed with symbolic residual_mult, residual_attn_ratio in [1/16,16], symbolic depth L <= 2^20 and branch index (both parities): z3 proves tau_k^2 = alpha_k^2/D_k and the inductive step of the contribution invariant, plus base case and the five final claims => all depths at once; unrolled cross-check for small depths with a call history on the shared rule object; TransformerStack wiring structurally.",
    note=S_NOTE + " Inductive argument: invariant written from the docstring; unrolled depths only 1..2 (quick)/1..3 (thorough) because z3 times out beyond.", technique="symbolic execution of the scalar rule; inductive invariant discharged by z3 nlsat; replay"),
+ "C10": dict(engine="symtorch", category="model_checking", design_ref="DESIGN.md §4 C10",
+   text="The real scaled_parameters, lr_scale_func_adam/sgd, lr_scale_for_depth, _get_fan_in and the SGD/Adam/AdamW constructors (torch base __init__ recorded) run on parameters with symbolic shape (rank 1-3, dims <= 4096), every tag, depth None or symbolic <= 1024, symbolic lr as float or 0-dim tensor, in every grouping structure: each group's lr equals source lr x the factor written in the property (independent z3 formula); untagged/invalid/4-d-weight/missing-lr error clauses per path; CrossHair as a second engine on _get_fan_in.",
+   note=S_NOTE + " Symbolic depth is an int subclass with symbolic arithmetic.", technique="symbolic execution of the optimizer wrappers; z3 NRA; CrossHair second opinion; replay on real parameters"),
+ "C11": dict(engine="symtorch", category="model_checking", design_ref="DESIGN.md §4 C11",
+   text="Same harness: every input parameter exactly once, in order, one per group; extra keys carried over by identity; caller's groups and lr tensors untouched (version counters), no lr tensor aliased; lr_out x wd_out = requested decay for all symbolic lr/wd/shapes (independent decay) or wd passed through; the zero-gradient step factor (1 - wd) follows from the documented SGD/AdamW update, validated on every run against real 1-3 steps.",
+   note=S_NOTE + " Group structures enumerated (<= 2 groups, <= 3 params); optimizer step is a stub contract validated concretely.", technique="symbolic execution; z3 NRA; object-identity/version tracking on symbolic tensors; replay"),
+ "C12": dict(engine="symtorch", category="model_checking", design_ref="DESIGN.md §4 C12",
+   text="Composition decided symbolically for all widths: forward factor c_out from the real U.linear/linear_readout/conv1d x lr factor from the real library Adam/AdamW on a weight of symbolic shape (tag/depth/constraint read off the real module) x fan_in*k = eta/sqrt(depth), with the weight-gradient factor proved positive; the Adam first-step contract and the module=function composition are validated concretely each run on real modules.",
+   note=S_NOTE + " Adam's update rule is torch code: used as documented contract (eps=0: -lr sign(grad)), validated per run.", technique="symbolic execution; z3 NRA over fan-in/fan-out/kernel/depth/eta; concrete contract validation; replay"),
 })
 
 NA = {
